@@ -6,7 +6,7 @@ PROP = dict(
          'default and custom reserves), constructed extreme-material boards (full boards of flats, tall stacks everywhere with captives of one '
          'colour, stacks at the 64-piece limit, many edge groups with gaps = many threats, many capstones and walls under custom '
          'configurations, many small groups), random constructed boards, finished games (roads, double roads, full boards, exhausted '
-         'reserves; ply numbers up to 800), the best position of each hill-climbing run on the real evaluator, and the HISTORY family: ONE evaluator instance (ai.MakeEvaluator(size,nil), MinimaxAI.Evaluate, and the leaf evaluator inside 1- and 2-ply Analyze) used on sequences of positions with identical top bitboards that differ in reserves (exhausted or not), buried stones and side to move -- constructed variants and the natural pair 'place the last stone' / 'slide the top of an own stack onto the same square' -- each value judged by the range oracle, compared with a fresh instance (class evaluator-history-dependent) and with the model; the line reported by Analyze from the parents is replayed against the C18 corollary; 7 of 8 cases use the '
+         'reserves; ply numbers up to 800), the best position of each hill-climbing run on the real evaluator, and the HISTORY family: ONE evaluator instance (ai.MakeEvaluator(size,nil), MinimaxAI.Evaluate, and the leaf evaluator inside 1- and 2-ply Analyze) used on sequences of positions with identical top bitboards that differ in reserves (exhausted or not), buried stones and side to move -- constructed variants and the natural pair (place the last stone / slide the top of an own stack onto the same square) -- each value judged by the range oracle, compared with a fresh instance (class evaluator-history-dependent) and with the model; the line reported by Analyze from the parents is replayed against the C18 corollary; 7 of 8 cases use the '
          'built-in weights of the size (judged by the oracle), 1 of 8 a random weight vector (model tie only). '
          'non-trivial = a position case; distinct = distinct (position, weights) strings',
     assumptions=['reserves of a configuration fit the byte fields: Pieces + Capstones <= 255 (GameOver adds them in a byte)',
